@@ -56,6 +56,8 @@ def main():
     if tier == "thorough":
         configs += [c for c in spec.get("thorough_configs", []) if c not in configs]
     R = Report(prop)
+    import rules_lm
+    rules_lm.REPO = args.repo
     facts = {}
     xinfo = {}
     for c in configs:
@@ -239,4 +241,5 @@ def write_evidence(prop, tier, seed, spec, configs, facts, xinfo, R, viol, known
 
 
 if __name__ == "__main__":
-    sys.exit(main())
+    from terms import run_with_big_stack
+    sys.exit(run_with_big_stack(main))
